@@ -10,7 +10,7 @@ import threading
 from harness import core
 from harness.core import coq_N, coq_nat, coq_list, coq_bool
 
-GEN = []
+GEN = ['SchedQuery']
 
 MANIFEST = {
     'level_text': 'TBD',
@@ -19,7 +19,7 @@ MANIFEST = {
     'design_ref': '6 C13',
 }
 
-IMPORTS = ['Model.Sched']
+IMPORTS = ['Model.Sched', 'Gen.SchedQuery']
 IMPORTS_LEGACY = ['Model.SchedLegacy']
 
 T0 = datetime.datetime(2030, 1, 1)
@@ -214,6 +214,7 @@ class FakeExecutor:
 
 
 KEYS = [None, 'k1', 'k2']
+FOREIGN = 9     # instance id of the process that only exists as an injected write
 
 
 class Inst:
@@ -299,11 +300,27 @@ class World:
         self.stats = {}
         self._orig_select = db_api.get_scheduled_jobs_to_start
 
+        self.inject = 0
+
         def rec_select(*a, **kw):
             res = self._orig_select(*a, **kw)
             g = current_gated()
             if g is not None:
                 g.candidates = [self.num_of.get(r.id) for r in res]
+                g.injected = 0
+                if self.inject:
+                    # another process captures the first rows between this SELECT and the compare-and-swaps
+                    # (what READ COMMITTED allows); written behind the ORM's back so the poller's objects stay stale
+                    import sqlalchemy as sa
+                    from mistral.db.sqlalchemy import base as db_base
+                    from mistral.db.v2.sqlalchemy import models
+                    t = models.ScheduledJob.__table__
+                    ses = db_base._get_thread_local_session()
+                    for r in res[:self.inject]:
+                        ses.execute(sa.update(t).where(t.c.id == r.id).values(captured_at=virtual_now()))
+                        g.injected += 1
+                        self.holders.append({'job': self.num_of.get(r.id), 'inst': FOREIGN, 'cap': CLOCK[0], 'thread': None,
+                                             'end': 'crash', 'end_at': CLOCK[0]})
             return res
         db_api.get_scheduled_jobs_to_start = rec_select
 
@@ -483,19 +500,32 @@ class World:
         self._after_thread_step(self.workers, k)
         self.msteps.append('MemDelete %s' % coq_nat(k))
 
-    def op_pselect(self, i):
+    def op_pselect(self, i, race=0):
         inst = self.inst(i)
         rows_before = self.rows()
         g = Gated(inst, inst.s._process_store_jobs, 'poll')
-        at = g.resume()
+        self.inject = race
+        try:
+            at = g.resume()
+        finally:
+            self.inject = 0
         cands = g.candidates if g.candidates is not None else []
         k = len(self.polls)
         if not g.finished():
             self.polls.append(g)
-        self.msteps.append('PollSelect %s %s' % (coq_nat(i), coq_list([coq_nat(c) for c in cands])))
+        ordl = coq_list([coq_nat(c) for c in cands])
+        self.msteps.append('PollSelect %s %s' % (coq_nat(i), ordl))
+        injected = getattr(g, 'injected', 0)
+        if injected:
+            # the foreign process: selects the same rows, captures the first ones, and is never heard of again
+            self.stat('foreign_capture_between_select_and_cas', injected)
+            self.msteps.append('PollSelect %s %s' % (coq_nat(FOREIGN), ordl))
+            for _ in range(injected):
+                self.msteps.append('PollCapture %s' % coq_nat(k + 1))
+            self.msteps.append('Crash %s' % coq_nat(FOREIGN))
         for _ in cands:
             self.msteps.append('PollCapture %s' % coq_nat(k))
-        self.oracle_poll(i, rows_before, cands, g)
+        self.oracle_poll(i, rows_before, cands, g, injected)
         return at
 
     def op_pinvoke(self, k):
@@ -557,7 +587,7 @@ class World:
             self.fails.append((sig, what))
 
     # -- oracle ----------------------------------------------------------------------
-    def oracle_poll(self, i, rows_before, cands, g):
+    def oracle_poll(self, i, rows_before, cands, g, injected=0):
         pickup, timeout, batch = self.cfgv
         nowv = CLOCK[0]
         must = [r[0] for r in rows_before if r[1] + pickup < nowv and (r[2] is None or r[2] + timeout <= nowv)]
@@ -578,9 +608,14 @@ class World:
                 self.fails.append(('poll-misses-eligible-job', 'store poll at %d selected %d < batch %d of %d eligible' % (
                     nowv, len(cands), batch, len(must))))
         captured = [j for (j, ok, _c) in g.captures if ok]
-        lost = [j for j in cands if j not in captured]
+        lost = [j for j in cands[injected:] if j not in captured]
         if lost:
             self.fails.append(('poll-selected-but-not-captured', 'jobs %s selected by an uncontended store poll were not captured' % lost))
+        stolen = [j for j in cands[:injected] if j in captured]
+        if stolen:
+            self.fails.append(('captured-although-taken-by-another-process',
+                               'jobs %s were captured by another process between the SELECT and the compare-and-swap of instance %d, '
+                               'which captured them as well' % (stolen, i)))
 
     def oracle_final(self, drained):
         pickup, timeout, batch = self.cfgv
@@ -621,7 +656,7 @@ class World:
 
 def coq_cfg(cfgv):
     pickup, timeout, batch = cfgv
-    return '(mkCfg %s %s %s)' % (coq_N(pickup), coq_N(timeout), 'None' if batch is None else '(Some %s)' % coq_nat(batch))
+    return '(mkCfg %s %s %s query_uses_memory)' % (coq_N(pickup), coq_N(timeout), 'None' if batch is None else '(Some %s)' % coq_nat(batch))
 
 
 def model_expr(cfgv, msteps):
@@ -760,6 +795,7 @@ def choose_op(rng, w, ninst, maxjobs):
         heap_n = len(w.insts[i].s._heap) if i in w.insts else 0
         cands.append((3 if heap_n else 0.3, ('dispatch', i)))
         cands.append((2.5, ('pselect', i)))
+        cands.append((0.4, ('pselect', i, rng.choice([1, 1, 2]))))
         cands.append((0.5, ('crash', i)))
         cands.append((1.2, ('query', i, rng.choice([1, 1, 2]), rng.random() < 0.25)))
     for k in range(len(w.pool)):
@@ -893,14 +929,27 @@ class LWorld:
         self.msteps = []
         self.fails = []
         self.captured = {}       # job -> [(inst, clock, thread)]
+        self.foreign = set()     # calls flagged by the injected foreign process (which then died)
         self._orig_select = db_api.get_delayed_calls_to_start
         self._orig_update = db_api.update_delayed_call
+
+        self.inject = 0
 
         def rec_select(*a, **kw):
             res = self._orig_select(*a, **kw)
             g = current_gated()
             if g is not None:
                 g.candidates = [self.num_of.get(r.id) for r in res]
+                g.injected = 0
+                if self.inject:
+                    import sqlalchemy as sa
+                    from mistral.db.sqlalchemy import base as db_base
+                    from mistral.db.v2.sqlalchemy import models
+                    t = models.DelayedCall.__table__
+                    ses = db_base._get_thread_local_session()
+                    for r in res[:self.inject]:
+                        ses.execute(sa.update(t).where(t.c.id == r.id).values(processing=True))
+                        g.injected += 1
             return res
 
         def rec_update(id, values, query_filter=None, **kw):
@@ -1020,17 +1069,34 @@ class LWorld:
     def op_rollback(self):
         self.msteps.append('LRollback %s' % coq_nat(self._end_tx(False)))
 
-    def op_lselect(self, i):
+    def op_lselect(self, i, race=0):
         inst = self.inst(i)
         rows_before = self.rows()
         g = Gated(inst, inst.s._process_delayed_calls, 'legacy')
         g.invoked = 0
-        g.resume()
+        self.inject = race
+        try:
+            g.resume()
+        finally:
+            self.inject = 0
         cands = g.candidates if g.candidates is not None else []
         k = len(self.threads)
         if not g.finished():
             self.threads.append(g)
-        self.msteps.append('LSelect %s %s' % (coq_nat(i), coq_list([coq_nat(c) for c in cands])))
+        ordl = coq_list([coq_nat(c) for c in cands])
+        self.msteps.append('LSelect %s %s' % (coq_nat(i), ordl))
+        injected = getattr(g, 'injected', 0)
+        if injected:
+            self.foreign.update(cands[:injected])
+            self.msteps.append('LSelect %s %s' % (coq_nat(FOREIGN), ordl))
+            for _ in range(injected):
+                self.msteps.append('LCapture %s' % coq_nat(k + 1))
+            self.msteps.append('LCrash %s' % coq_nat(FOREIGN))
+            stolen = [j for (j, ok, _c) in g.captures if ok and j in cands[:injected]]
+            if stolen:
+                self.fails.append(('captured-although-taken-by-another-process:legacy',
+                                   'calls %s were flagged by another process between the SELECT and the compare-and-swap of '
+                                   'instance %d, which captured them as well' % (stolen, i)))
         for _ in cands:
             self.msteps.append('LCapture %s' % coq_nat(k))
         # property oracle for the poll itself
@@ -1141,6 +1207,7 @@ def lchoose_op(rng, w, ninst, maxjobs, crashes):
     for i in range(ninst):
         cands.append((3, ('lselect', i)))
         if crashes:
+            cands.append((0.4, ('lselect', i, rng.choice([1, 1, 2]))))
             cands.append((0.5, ('crash', i)))
     cands.append((1.5, ('query', rng.choice([1, 1, 2]), rng.random() < 0.4)))
     for k, g in enumerate(w.threads):
@@ -1332,6 +1399,11 @@ CORPUS = [
     {'name': 'dispatch-before-commit', 'kind': 'default', 'cfg': (2, 3, None), 'ops': [
         ('persist', 0, 0, 1, 'tx'), ('dispatch', 0), ('query', 0, 1, False), ('query', 1, 1, False), ('commit',), ('mstart', 0),
         ('minvoke', 0), ('mdelete', 0)]},
+    {'name': 'foreign-capture-between-select-and-cas', 'kind': 'default', 'cfg': (2, 3, None), 'ops': [
+        ('persist', 0, 0, 1, 'auto'), ('persist', 0, 0, 2, 'auto'), ('tick', 3), ('pselect', 1, 1), ('pinvoke', 0), ('pdelete', 0),
+        ('tick', 3), ('pselect', 2), ('pinvoke', 0), ('pdelete', 0)]},
+    {'name': 'legacy-foreign-capture-between-select-and-cas', 'kind': 'legacy', 'cfg': (None,), 'ops': [
+        ('persist', 0, 1, 'auto'), ('persist', 0, 2, 'auto'), ('lselect', 0, 1), ('linvoke', 0), ('ldelete', 0), ('lselect', 1)]},
     {'name': 'legacy-basic', 'kind': 'legacy', 'cfg': (None,), 'ops': [
         ('persist', 1, 1, 'auto'), ('persist', 0, 2, 'tx'), ('lselect', 0), ('commit',), ('lselect', 0), ('query', 2, True),
         ('linvoke', 0), ('tick', 1), ('lselect', 1), ('linvoke', 1), ('ldelete', 0), ('ldelete', 0)]},
@@ -1387,7 +1459,10 @@ def component_cases(seed, n):
             o = O()
             o.id = [i for i, n_ in ids.items() if n_ == num][0] if rng.random() < 0.9 else 'no-such-id'
             o.captured_at = ts(exp)
-            ok = bool(ds.DefaultScheduler._capture_scheduled_job(o))
+            try:
+                ok = bool(ds.DefaultScheduler._capture_scheduled_job(o))
+            except Exception as e:      # the model answers False; an exception is a difference
+                ok = 'raised:%s' % type(e).__name__
             with db_api.transaction():
                 after = sorted((ids[r.id], secs(r.execute_at), secs(r.captured_at), KEYS.index(r.key)) for r in db_api.get_scheduled_jobs())
             casr = {'j': num if o.id != 'no-such-id' else 99, 'exp': exp, 'ok': ok, 'after': after,
@@ -1576,7 +1651,7 @@ def judge_components(ctx, cases):
         if list(m) != c['lsel'] or c['lcaps'] != c['lsel']:
             ctx.disagree(suite, {'what': 'get_delayed_calls_to_start/_capture_calls', 'cfg': c['cfg'], 'now': c['now'], 'rows': c['lrows']},
                          list(m), {'selected': c['lsel'], 'captured': c['lcaps']})
-    ctx.cov['suites'][suite]['kinds'] = kinds
+    ctx.cov['suites'].setdefault(suite, {'evaluations': 0, 'distinct_nontrivial': 0})['kinds'] = kinds
 
 
 def chunks(lst, n):
